@@ -156,3 +156,106 @@ Proof.
   exists (lists_out (run pos' pend' toks2)).
   rewrite lists_of_out. unfold parse_known_args. rewrite om_eq, (Hc l2 toks2 H2). rewrite Hex. reflexivity.
 Qed.
+
+(* ---------- the parser state between two arguments does not matter for the three lists ---------- *)
+Definition same_or_idle (p p' : option optdef) : Prop := p = p' \/ (pend_ok p /\ pend_ok p').
+
+Lemma lists_out_push_run d v pos pend k :
+  lists_out (push d v (run pos pend k)) = consl d v (lists_out (run pos pend k)).
+Proof. apply lists_out_push, run_no_exit. Qed.
+
+Lemma run_irrelevant k : forall pos pos' pend pend',
+  same_or_idle pend pend' -> lists_out (run pos pend k) = lists_out (run pos' pend' k).
+Proof.
+  induction k as [|[s c] r IH]; intros pos pos' pend pend' HR.
+  - destruct HR as [<-|[H1 H2]]; [reflexivity|].
+    destruct pend as [o|], pend' as [o'|]; cbn [run];
+      cbn [pend_ok] in H1, H2;
+      repeat match goal with H : _ /\ onargs _ = NOpt |- _ => let E := fresh in destruct H as [_ E]; rewrite E end;
+      reflexivity.
+  - (* the step when no value is awaited, from any two positional states *)
+    assert (Hcont : forall p p',
+      lists_out (match c with
+        | CA | CDash => match p with PAvail | PActive => run PActive None r | PDone => push_extra s (run PDone None r) end
+        | CO None _ => push_extra s (run (close_run p) None r)
+        | CO (Some o) (Some v) => push (odest o) (value_of v) (run (close_run p) None r)
+        | CO (Some o) None => run (close_run p) (Some o) r
+        end)
+      = lists_out (match c with
+        | CA | CDash => match p' with PAvail | PActive => run PActive None r | PDone => push_extra s (run PDone None r) end
+        | CO None _ => push_extra s (run (close_run p') None r)
+        | CO (Some o) (Some v) => push (odest o) (value_of v) (run (close_run p') None r)
+        | CO (Some o) None => run (close_run p') (Some o) r
+        end)).
+    { intros p p'. destruct c as [| |[o|] [v|]].
+      - destruct p, p'; rewrite ?lists_out_push_extra; apply IH; now left.
+      - destruct p, p'; rewrite ?lists_out_push_extra; apply IH; now left.
+      - rewrite !lists_out_push_run. f_equal. apply IH; now left.
+      - apply IH; now left.
+      - rewrite !lists_out_push_extra. apply IH; now left.
+      - rewrite !lists_out_push_extra. apply IH; now left. }
+    (* an idle awaited option behaves like none, up to the lists *)
+    assert (Hidle : forall p o, pend_ok (Some o) ->
+      lists_out (run p (Some o) ((s, c) :: r)) = lists_out (run p None ((s, c) :: r))).
+    { intros p o Hok. destruct c as [| |a e].
+      - rewrite run_pend_arg by assumption. cbn [run].
+        destruct p; rewrite ?lists_out_push_extra; apply IH; now left.
+      - rewrite run_pend_other by (assumption || discriminate). reflexivity.
+      - rewrite run_pend_other by (assumption || discriminate). reflexivity. }
+    destruct HR as [<-|[H1 H2]].
+    + destruct pend as [o|]; [|cbn [run]; apply Hcont].
+      cbn [run]. destruct c as [| |a e].
+      * rewrite !lists_out_push_run. f_equal. apply IH; now left.
+      * destruct (onargs o); [reflexivity|apply (Hcont pos pos')].
+      * destruct (onargs o); [reflexivity|apply (Hcont pos pos')].
+    + destruct pend as [o|], pend' as [o'|]; rewrite ?Hidle by assumption; cbn [run]; apply Hcont.
+Qed.
+
+(* everything in a safe prefix is kept, in order, and the rest contributes what it contributes on its own *)
+Theorem safe_prefix_compose l1 l2 :
+  safe l1 = true -> ~ In "-i" l2 ->
+  exists rest, lists_of (parse_args l2) = Some rest /\
+               lists_of (parse_args (l1 ++ l2)) = Some (app3v (some3 (scan_S l1)) rest).
+Proof.
+  intros Hs Hn.
+  destruct (run_safe_k (length l1) l1 (le_n _) Hs) as (toks & Hc & Hg).
+  destruct (classify_total l2 Hn false) as [toks2 H2].
+  destruct (Hg toks2 PAvail None I) as (pos' & pend' & Hok & Hex).
+  exists (lists_out (run PAvail None toks2)). split.
+  - rewrite lists_of_out. unfold parse_known_args. now rewrite om_eq, H2.
+  - rewrite lists_of_out. unfold parse_known_args. rewrite om_eq, (Hc l2 toks2 H2), Hex.
+    do 2 f_equal. apply run_irrelevant. right. split; [assumption|exact I].
+Qed.
+
+Lemma safe_closed l : safe l = true -> closed l = true.
+Proof.
+  assert (H : forall n l, length l <= n -> safe l = true -> closed l = true).
+  { induction n as [|n IH]; intros l0 Hlen Hs; (destruct l0 as [|t r]; [reflexivity|]); [cbn in Hlen; lia|].
+    cbn [safe closed] in *. apply andb_prop in Hs. destruct Hs as [_ Hs].
+    destruct (needs_value t).
+    - destruct r as [|v r]; [discriminate|]. apply andb_prop in Hs. destruct Hs as [_ Hs].
+      apply IH; [cbn in Hlen; lia|assumption].
+    - apply IH; [cbn in Hlen; lia|assumption]. }
+  apply (H (length l) l (le_n _)).
+Qed.
+
+(* a catalogue entry after a safe prefix is neutral whatever follows *)
+Theorem neutral_any_tail l1 e l2 :
+  safe l1 = true -> In e c11_catalogue -> ~ In "-i" l2 ->
+  lists_of (parse_args (l1 ++ e ++ l2)) = lists_of (parse_args (l1 ++ l2)).
+Proof.
+  intros Hs Hin Hn.
+  pose proof catalogue_ok as Hcat. rewrite forallb_forall in Hcat. specialize (Hcat e Hin).
+  unfold entry_ok in Hcat. apply andb_prop in Hcat. destruct Hcat as [Hcat Hu].
+  apply andb_prop in Hcat. destruct Hcat as [Hse Hce].
+  assert (Hs' : safe (l1 ++ e) = true).
+  { rewrite safe_app by now apply safe_closed. now rewrite Hs, Hse. }
+  destruct (safe_prefix_compose l1 l2 Hs Hn) as (rest & Hr & ->).
+  rewrite app_assoc.
+  destruct (safe_prefix_compose (l1 ++ e) l2 Hs' Hn) as (rest' & Hr' & ->).
+  rewrite Hr in Hr'. injection Hr' as <-.
+  do 3 f_equal.
+  rewrite <- (app_nil_r e) at 1. rewrite <- (app_nil_r l1) at 2.
+  apply scan_neutral; [|assumption].
+  apply closed_safe_complete; [now apply safe_closed|assumption].
+Qed.
